@@ -297,7 +297,7 @@ def check_parser(cases: list[dict], scratch: Path, model_ok: bool, res: dict) ->
                 viol = f'spelling denotes {exp} but was rejected with {r["err"]}: {r.get("msg")}'
             elif r['err'] not in ('EValueError', 'ETypeError'):
                 viol = f'rejected with {r["err"]} (neither ValueError nor TypeError): {r.get("msg")}'
-        if viol and outside:
+        if viol and outside and c['stream'] != 'iterator':
             observations.append({'args': c['args'], 'dom': c['dom'], 'observed': obs, 'note': viol})
         elif viol:
             res['spec_violations'].append({'what': viol, 'case': case, 'observed': obs, 'op_index': 0})
